@@ -15,7 +15,7 @@ import warnings
 
 import numpy as np
 
-from . import lib
+from . import lib, hist
 from .lib import cbool, cnat, cZ, clist, cshape, copt
 
 HEADER = ('From Coq Require Import List ZArith Bool.\nFrom PM Require Import Base Mask C15Model.\n'
@@ -101,6 +101,8 @@ def gen_obj(rng, cls=None, shape=None, numer=None, denom=None, nder=None, rep=No
          'readonly': bool(rng.random() < 0.25) if readonly is None else readonly}
     if kind == 'bool':
         d['bvals'] = [rng.random() < 0.5 for _ in range(prod(shape))]
+    if kind == 'float' and derivs and not numer and not denom and rng.random() < 0.5:
+        d['plusnum'] = True
     return d
 
 
@@ -155,6 +157,12 @@ def build(d, Pm):
         if d['cls'] == 'Qube':
             kw['nrank'] = len(numer)
         obj.insert_deriv(dd['key'], cls(dv, impl_mask(d), **kw))
+    if d.get('plusnum') and not numer and not denom and d['kind'] == 'float' and d['derivs']:
+        # the object is the result of the number fast path on an operand whose derivative-free twin is cached
+        # (seeded change C15-E: the identity short cuts of the relabelings return self.wod)
+        x0 = obj - 2.0
+        hist.warm(x0)
+        obj = x0 + 2.0
     if d['readonly']:
         obj = obj.as_readonly()
     return obj
